@@ -1,36 +1,166 @@
 import RTV.Model.SeqEnv
 import RTV.Lemmas.Choice
 import RTV.Gen.SpecCases
-/-! C19 through the model: the comparison the repository's spec runner makes, on the model's output, and the equality
-of the formula-driven and the table-driven sequence environment. -/
+/-! C19 through the model: the comparison property C19 demands (count, order, type name, text, offsets where given,
+every resolution field the case states — more than the repository's runner compares), on the model's output, and the
+equality of the formula-driven and the table-driven sequence environment. -/
 namespace RTV.Seq
 open RTV.Py RTV.Re RTV.Match
 
-def ipOK (E : SeqEnv) (zh : Bool) (cases : List (Str × List (Str × Str × Str))) : Bool :=
-  cases.all fun c => ipModelRun E zh c.1 == c.2
+/-- one expected entity of a Specs case: TypeName, Text, Start and End when the case states them, and the Resolution
+dict as (key, text of the value) pairs (`str` as it is, `bool` as `True`/`False`, `float` as its repr) -/
+abbrev SpecExp := Str × Str × Option Nat × Option Int × List (Str × Str)
+abbrev SpecCase := Str × List SpecExp
 
-/-- one GUID result against the spec: type name, text, value; the score only when the spec states one -/
-def guidAgree (m : Str × Str × Str × Str) (e : Str × Str × Str × Option Str) : Bool :=
-  m.1 == e.1 && m.2.1 == e.2.1 && m.2.2.1 == e.2.2.1 &&
-    (match e.2.2.2 with | some s => m.2.2.2 == s | none => true)
+def lookupKey (k : Str) : List (Str × Str) → Option Str
+  | [] => none
+  | (k', v) :: r => if k' == k then some v else lookupKey k r
 
-def guidOK (E : SeqEnv) (cases : List (Str × List (Str × Str × Str × Option Str))) : Bool :=
-  cases.all fun c =>
-    let m := guidModelRun E c.1
-    m.length == c.2.length && (m.zip c.2).all fun p => guidAgree p.1 p.2
+/-- a reported entity against the expected one: type name, text, offsets WHERE GIVEN, and every resolution field the
+case states except the keys in `skip` (the model may carry further keys: the Specs of another platform do not list
+them) -/
+def entAgree (skip : List Str) (m : SpecEnt) (e : SpecExp) : Bool :=
+  m.typeName == e.1 && m.text == e.2.1 &&
+  (match e.2.2.1 with | some a => m.start == a | none => true) &&
+  (match e.2.2.2.1 with | some b => m.stop == b | none => true) &&
+  e.2.2.2.2.all fun kv => skip.contains kv.1 || lookupKey kv.1 m.res == some kv.2
 
-def simpleOK (E : SeqEnv) (re : RE) (typeName : Str) (cases : List (Str × List (Str × Str × Str))) : Bool :=
-  cases.all fun c => simpleModelRun E re typeName c.1 == c.2
+/-- same count, same order, every entity agrees -/
+def entsAgree (skip : List Str) (m : List SpecEnt) (e : List SpecExp) : Bool :=
+  m.length == e.length && (m.zip e).all fun p => entAgree skip p.1 p.2
 
-def urlSpecOK (E : SeqEnv) (zh : Bool) (cases : List (Str × List (Str × Str × Str))) : Bool :=
-  cases.all fun c => urlSpecRun E zh c.1 == c.2
+/-- every case of the list: the model's entities are the expected ones in every field the case states
+(`run q = none`: an exception escapes the recogniser — the case fails) -/
+def casesOK (run : Str → Option (List SpecEnt)) (cases : List SpecCase) : Bool :=
+  cases.all fun c => match run c.1 with
+    | some m => entsAgree [] m c.2
+    | none => false
+
+/-- the verdict on a family in which the code (and so the model) reports NO resolution key `k` although the Specs
+state one: every case agrees in every other field; every expected entity states `k`; no reported entity has it -/
+def casesOKAbsent (k : Str) (run : Str → Option (List SpecEnt)) (cases : List SpecCase) : Bool :=
+  cases.all fun c => match run c.1 with
+    | none => false
+    | some m =>
+      entsAgree [k] m c.2 && (c.2.all fun e => (lookupKey k e.2.2.2.2).isSome) &&
+      m.all fun x => (lookupKey k x.res).isNone
+
+/-- the verdict on a family in which the code (and so the model) reports another value under the resolution key `k`
+than the Specs state: every case agrees in every other field; for every entity the two values of `k` differ -/
+def casesOKDiffer (k : Str) (run : Str → Option (List SpecEnt)) (cases : List SpecCase) : Bool :=
+  cases.all fun c => match run c.1 with
+    | none => false
+    | some m =>
+      entsAgree [k] m c.2 &&
+      (m.zip c.2).all fun p => (lookupKey k p.2.2.2.2.2).isSome && lookupKey k p.1.res != lookupKey k p.2.2.2.2.2
+
+theorem casesOK_iff (run : Str → Option (List SpecEnt)) (cases : List SpecCase) :
+    casesOK run cases = true ↔ ∀ c ∈ cases, ∃ m, run c.1 = some m ∧ entsAgree [] m c.2 = true := by
+  unfold casesOK
+  rw [List.all_eq_true]
+  constructor
+  · intro h c hc
+    have := h c hc
+    cases hr : run c.1 with
+    | none => simp [hr] at this
+    | some m => exact ⟨m, rfl, by simpa [hr] using this⟩
+  · intro h c hc
+    obtain ⟨m, hm, ha⟩ := h c hc
+    simp [hm, ha]
+
+theorem casesOKAbsent_spec (k : Str) (run : Str → Option (List SpecEnt)) (cases : List SpecCase)
+    (h : casesOKAbsent k run cases = true) :
+    ∀ c ∈ cases, ∃ m, run c.1 = some m ∧ entsAgree [k] m c.2 = true ∧
+      (∀ e ∈ c.2, (lookupKey k e.2.2.2.2).isSome = true) ∧ ∀ x ∈ m, lookupKey k x.res = none := by
+  intro c hc
+  have := List.all_eq_true.1 h c hc
+  cases hr : run c.1 with
+  | none => simp [hr] at this
+  | some m =>
+    simp only [hr, Bool.and_eq_true, List.all_eq_true] at this
+    refine ⟨m, rfl, this.1.1, this.1.2, ?_⟩
+    intro x hx
+    simpa using this.2 x hx
+
+theorem casesOKDiffer_spec (k : Str) (run : Str → Option (List SpecEnt)) (cases : List SpecCase)
+    (h : casesOKDiffer k run cases = true) :
+    ∀ c ∈ cases, ∃ m, run c.1 = some m ∧ entsAgree [k] m c.2 = true ∧
+      ∀ p ∈ m.zip c.2, (lookupKey k p.2.2.2.2.2).isSome = true ∧ lookupKey k p.1.res ≠ lookupKey k p.2.2.2.2.2 := by
+  intro c hc
+  have := List.all_eq_true.1 h c hc
+  cases hr : run c.1 with
+  | none => simp [hr] at this
+  | some m =>
+    simp only [hr, Bool.and_eq_true, List.all_eq_true] at this
+    refine ⟨m, rfl, this.1, ?_⟩
+    intro p hp
+    have := this.2 p hp
+    exact ⟨this.1, by simpa using this.2⟩
+
+/-- number of expected entities in a family (the `Except` verdicts are about these) -/
+def expectedCount (cases : List SpecCase) : Nat := (cases.map fun c => c.2.length).sum
+
+def ipOK (E : SeqEnv) (zh : Bool) (cases : List SpecCase) : Bool :=
+  casesOKAbsent kType (fun q => some (ipModelRun E zh q)) cases
+
+def guidOK (E : SeqEnv) (cases : List SpecCase) : Bool := casesOK (fun q => some (guidModelRun E q)) cases
+
+def simpleOK (E : SeqEnv) (re : RE) (typeName : Str) (cases : List SpecCase) : Bool :=
+  casesOK (fun q => some (simpleModelRun E re typeName q)) cases
+
+def urlSpecOK (E : SeqEnv) (zh : Bool) (cases : List SpecCase) : Bool :=
+  casesOK (fun q => some (urlSpecRun E zh q)) cases
+
+def boolOK (E : RTV.Choice.Env) (cases : List SpecCase) : Bool :=
+  casesOKDiffer kScore (boolModelRun E) cases
+
+/-- the full statement for a family: for every case the recogniser returns (no exception) entities that agree with the
+expected ones in count, order and every field the case states, the resolution keys in `skip` excepted -/
+def FamilyAgrees (skip : List Str) (run : Str → Option (List SpecEnt)) (cases : List SpecCase) : Prop :=
+  ∀ c ∈ cases, ∃ m, run c.1 = some m ∧ entsAgree skip m c.2 = true
+
+theorem guidOK_spec (E : SeqEnv) (cases : List SpecCase) (h : guidOK E cases = true) :
+    FamilyAgrees [] (fun q => some (guidModelRun E q)) cases :=
+  (casesOK_iff (fun q => some (guidModelRun E q)) cases).1 h
+
+theorem simpleOK_spec (E : SeqEnv) (re : RE) (typeName : Str) (cases : List SpecCase)
+    (h : simpleOK E re typeName cases = true) :
+    FamilyAgrees [] (fun q => some (simpleModelRun E re typeName q)) cases :=
+  (casesOK_iff (fun q => some (simpleModelRun E re typeName q)) cases).1 h
+
+theorem urlSpecOK_spec (E : SeqEnv) (zh : Bool) (cases : List SpecCase) (h : urlSpecOK E zh cases = true) :
+    FamilyAgrees [] (fun q => some (urlSpecRun E zh q)) cases :=
+  (casesOK_iff (fun q => some (urlSpecRun E zh q)) cases).1 h
+
+theorem ipOK_spec (E : SeqEnv) (zh : Bool) (cases : List SpecCase) (h : ipOK E zh cases = true) :
+    FamilyAgrees [kType] (fun q => some (ipModelRun E zh q)) cases ∧
+    ∀ c ∈ cases, (∀ e ∈ c.2, (lookupKey kType e.2.2.2.2).isSome = true) ∧
+      ∀ x ∈ ipModelRun E zh c.1, lookupKey kType x.res = none := by
+  constructor
+  · intro c hc
+    obtain ⟨m, hm, ha, _⟩ := casesOKAbsent_spec _ _ _ h c hc
+    exact ⟨m, hm, ha⟩
+  · intro c hc
+    obtain ⟨m, hm, _, he, hx⟩ := casesOKAbsent_spec _ _ _ h c hc
+    cases hm
+    exact ⟨he, hx⟩
+
+theorem boolOK_spec (E : RTV.Choice.Env) (cases : List SpecCase) (h : boolOK E cases = true) :
+    FamilyAgrees [kScore] (boolModelRun E) cases ∧
+    ∀ c ∈ cases, ∃ m, boolModelRun E c.1 = some m ∧
+      ∀ p ∈ m.zip c.2, (lookupKey kScore p.2.2.2.2.2).isSome = true ∧
+        lookupKey kScore p.1.res ≠ lookupKey kScore p.2.2.2.2.2 := by
+  constructor
+  · intro c hc
+    obtain ⟨m, hm, ha, _⟩ := casesOKDiffer_spec _ _ _ h c hc
+    exact ⟨m, hm, ha⟩
+  · intro c hc
+    obtain ⟨m, hm, _, hd⟩ := casesOKDiffer_spec _ _ _ h c hc
+    exact ⟨m, hm, hd⟩
 
 theorem all_take_drop {α : Type} (p : α → Bool) (l : List α) (n : Nat) (h1 : (l.take n).all p = true)
     (h2 : (l.drop n).all p = true) : l.all p = true := by
   rw [← List.take_append_drop n l, List.all_append, h1, h2]; rfl
-
-def boolOK (E : RTV.Choice.Env) (cases : List (Str × List (Str × Str × Bool))) : Bool :=
-  cases.all fun c => boolModelRun E c.1 == some c.2
 
 theorem fast_chars_ascii : ∀ c, c < 128 →
     (((9 ≤ c && c ≤ 13) || (28 ≤ c && c ≤ 32)) = pyChars.isSpace c ∧ (48 ≤ c && c ≤ 57) = pyChars.isDigit c ∧
